@@ -25,21 +25,23 @@ for i in $(seq 1 $runs); do
   GORACE="halt_on_error=0 log_path=$R/race.$i" VERIF_DIR="$R" VERIF_EVIDENCE_DIR="$R/evidence" VERIF_STAGE=race VERIF_PROP=C20 VERIF_TIER="$tier" VERIF_SEED=$(( ${VERIF_SEED:-1} * 100 + i )) \
     timeout -s QUIT 3600 "$BIN/monitor.race.$$.test" -test.run '^TestMonitor$' -test.timeout 0 >"$R/out.$i.log" 2>&1
   rc=$?
-  n=$(cat "$R"/race.$i.* 2>/dev/null | grep -c 'WARNING: DATA RACE')
+  n=$(cat "$R"/race.$i.* 2>/dev/null | grep -a -c 'WARNING: DATA RACE')
   total=$((total + n))
-  if ! grep -q '^RESULT property=C20' "$R/out.$i.log"; then
-    if [ "$n" -gt 0 ] || grep -q -e '^fatal error:' -e '^panic:' "$R/out.$i.log"; then
+  if ! grep -a -q '^RESULT property=C20' "$R/out.$i.log"; then
+    if [ "$n" -gt 0 ] || grep -a -q -e '^fatal error:' -e '^panic:' "$R/out.$i.log"; then
       : # a crash with race reports or a runtime-fatal error (e.g. concurrent map writes) is judged below
       rcall=1
-      grep -m2 -e '^fatal error:' -e '^panic:' "$R/out.$i.log"
+      grep -a -m2 -e '^fatal error:' -e '^panic:' "$R/out.$i.log"
     else
       echo "INCONCLUSIVE property=C20 race-stage process ended abnormally (status $rc), see $R/out.$i.log"
       exit 2
     fi
   else
-    grep -e '^VIOLATION' -e '^  kind=' -e '^INCONCLUSIVE' "$R/out.$i.log"
+    grep -a -e '^VIOLATION' -e '^  kind=' -e '^INCONCLUSIVE' "$R/out.$i.log"
     [ $rc -eq 1 ] && rcall=1
-    [ $rc -eq 3 ] && { echo "INCONCLUSIVE property=C20 race stage inconclusive"; exit 2; }
+    # the test binary turns "held, but the race detector reported" into status 3:
+    # with reports in hand that is a violation (judged below), not inconclusive
+    [ $rc -eq 3 ] && [ "$n" -eq 0 ] && { echo "INCONCLUSIVE property=C20 race stage inconclusive"; exit 2; }
   fi
 done
 # Race sweep: every other property's monitor is itself a 16-worker concurrent
@@ -54,8 +56,8 @@ sweep_reports=0; sweep_props=0
 for p in $sweep; do
   GORACE="halt_on_error=0 log_path=$R/sweep.$p" VERIF_DIR="$R" VERIF_EVIDENCE_DIR="$R/evidence" VERIF_STAGE= VERIF_PROP=$p VERIF_TIER=quick VERIF_SCALE=$scale VERIF_SEED=${VERIF_SEED:-1} \
     timeout -s QUIT 3600 "$BIN/monitor.race.$$.test" -test.run '^TestMonitor$' -test.timeout 0 >"$R/sweep.$p.out" 2>&1
-  n=$(cat "$R"/sweep.$p.[0-9]* 2>/dev/null | grep -c 'WARNING: DATA RACE')
-  if grep -q -e '^fatal error:' "$R/sweep.$p.out"; then n=$((n + 1)); grep -m1 '^fatal error:' "$R/sweep.$p.out"; fi
+  n=$(cat "$R"/sweep.$p.[0-9]* 2>/dev/null | grep -a -c 'WARNING: DATA RACE')
+  if grep -a -q -e '^fatal error:' "$R/sweep.$p.out"; then n=$((n + 1)); grep -a -m1 '^fatal error:' "$R/sweep.$p.out"; fi
   sweep_reports=$((sweep_reports + n)); sweep_props=$((sweep_props + 1))
   [ "$n" -gt 0 ] && echo "  race sweep: $n report(s) while running the $p workload under the race detector"
 done
@@ -66,7 +68,7 @@ if [ "$total" -gt 0 ]; then
   cat "$R"/race.*.* "$R"/sweep.*.[0-9]* > "$keep/race-reports-$tier-s${VERIF_SEED:-1}.log" 2>/dev/null
   echo "VIOLATION property=C20 replay=$keep/race-reports-$tier-s${VERIF_SEED:-1}.log"
   echo "  $total data race report(s) from the race detector over $runs runs of the shared-input stage and the race sweep; library functions in the racing stacks:"
-  grep -h -A12 'WARNING: DATA RACE' "$keep/race-reports-$tier-s${VERIF_SEED:-1}.log" | grep -o 'go-moremath/[a-zA-Z/]*\.[A-Za-z0-9_.]*' | sort | uniq -c | sort -rn | head -8
+  grep -a -h -A12 'WARNING: DATA RACE' "$keep/race-reports-$tier-s${VERIF_SEED:-1}.log" | grep -o 'go-moremath/[^ ]*()' | sort | uniq -c | sort -rn | head -8
   rcall=1
 elif [ $rcall -eq 1 ]; then
   mkdir -p "$keep"
